@@ -194,6 +194,15 @@ def check_case(ctx, case, family):
     except core.Timeout:
         ctx.violation('c01:hang', dict(case=case, family=family), 'round trip does not finish within 30 s')
         return False
+    except core.HarnessError:
+        raise
+    except Exception as e:
+        # raised by the code under test outside the guarded routes (snapshot of the built metamodel, serialize() dispatch)
+        import traceback
+        ctx.violation('c01:%s:crash:%s' % (family, type(e).__name__), dict(case=case, family=family),
+                      'serialising the metamodel raised %s: %s' % (type(e).__name__, e), None, traceback.format_exc()[-1200:],
+                      unit_test=unit_test(case, '?'))
+        return False
 
 
 def _check_case(ctx, xtuml, case, family):
